@@ -82,6 +82,19 @@ def targets():
     for fa in (0, 2):
       out.append(('OutputToFile/chunked serializer interrupted by %s after %d chunks' % (exc.__name__, fa),
                   run_cb(chunked(fa, exc)), b'{chunk0}{chunk1}{chunk2}', True))
+  # chunks of very different sizes (a 2 MiB chunk behind small ones, as an inlined attachment produces):
+  # "on success the destination holds exactly the serialized record"
+  big = 'B' * (2 << 20)
+
+  class ChunkedBig(callbacks.OutputToFile):
+    @staticmethod
+    def serialize_test_record(test_rec):
+      yield '{head}'
+      yield '{small}'
+      yield big
+      yield '{tail}'
+  out.append(('OutputToFile/chunked serializer with a 2 MiB chunk', run_cb(ChunkedBig),
+              ('{head}{small}' + big + '{tail}').encode(), False))
   out.append(('OutputToFile/default pickle serializer', run_cb(callbacks.OutputToFile), 'pickle', False))
   out.append(('OutputToJSON', run_cb(json_factory.OutputToJSON), 'json', False))
   for fa in (None, 0, 2):
@@ -127,6 +140,24 @@ def one_case(name, run, expect, serializer_fails, rec, old, fail_kind, fail_n, c
         content = fh.read()
     left = [f for f in os.listdir(scratch) if f != 'UNKNOWN_DUT.out']
     return r.ops, content, err, left
+  finally:
+    tempfile.tempdir = None
+    shutil.rmtree(scratch, ignore_errors=True)
+
+
+def plain_case(run, rec, old):
+  """the fault-free call without the recording layer (whose file proxy flushes after every write and
+  would hide anything that depends on buffering): returns the destination's content"""
+  scratch = tempfile.mkdtemp(prefix='vf-c17p-')
+  try:
+    tempfile.tempdir = scratch
+    dest = os.path.join(scratch, 'UNKNOWN_DUT.out')
+    if old:
+      with open(dest, 'wb') as fh:
+        fh.write(OLD)
+    run(rec, os.path.join(scratch, '{dut_id}.out'), dest)
+    with open(dest, 'rb') as fh:
+      return fh.read()
   finally:
     tempfile.tempdir = None
     shutil.rmtree(scratch, ignore_errors=True)
@@ -201,6 +232,12 @@ def main(chk):
     # fault-free reference run to learn the number of writes
     ops0, content0, err0, left0 = one_case(name, run, expect, sfails, rec, False, None, None)
     nwrites = sum(1 for o in ops0 if o[0] == 'write')
+    if not sfails:
+      for old in (False, True):
+        got = classify(plain_case(run, rec, old), expect, rec)
+        if got != 'new':
+          crash_bad.append(('%s: on success the destination does not hold exactly the serialized record (%s)'
+                            % (name.split('/')[0].split(' ')[0], got), dict(target=name, old=old)))
     faults = [(None, None)]
     if not sfails:
       ws = sorted(set([1, 2, max(1, nwrites // 2), nwrites])) if nwrites else []
